@@ -101,6 +101,8 @@ ReadWhy(r) ==
      (IF r.res = "panic" THEN {"panic"} ELSE {})
   \cup (IF r.res = "ok" /\ (~g.ok \/ g.stmts # r.stmts) THEN {"grammar"} ELSE {})
   \cup (IF r.res = "err" /\ g.ok THEN {"grammar-accept"} ELSE {})
+     \* C04: an error carries exactly one span inside the text
+  \cup (IF r.res = "err" /\ ~(r.spanq >= 1 /\ 0 <= r.span[1] /\ r.span[1] <= r.span[2] /\ r.span[2] <= Len(r.src)) THEN {"errspan"} ELSE {})
 
 RecWhy(r) ==
   CASE r.ev = "Parse" -> ParseWhy(r)
